@@ -201,6 +201,22 @@ func (vc *VC) call(ins ssa.Instruction, c *ssa.CallCommon, v *ssa.Call) {
 			env.vars[names[i]] = a
 		}
 	}
+	// the callee's parameters may have been renamed since its contract was written / the claims were recorded: the old
+	// names (same declaration positions, see locals.go) denote the same arguments
+	if cf := staticFn; cf != nil || cellFn != nil {
+		if cf == nil {
+			cf = cellFn
+		}
+		if rec, ok := vc.eng.recorded[shortKey(funcKey(cf))]; ok {
+			for old, now := range renameMap(rec, localNames(cf)) {
+				if t, ok := env.vars[now]; ok && old != now {
+					if _, taken := env.vars[old]; !taken {
+						env.vars[old] = t
+					}
+				}
+			}
+		}
+	}
 	// a closure called directly: its captured variables are visible to its contract by name
 	if mc, ok := c.Value.(*ssa.MakeClosure); ok && staticFn != nil {
 		for k, fv := range staticFn.FreeVars {
@@ -253,8 +269,12 @@ func (vc *VC) call(ins ssa.Instruction, c *ssa.CallCommon, v *ssa.Call) {
 					return t, true
 				}
 				if strings.HasSuffix(name, "_0") { // <param>_0: the value of a parameter at function entry
+					pn := strings.TrimSuffix(name, "_0")
+					if to, ok := vc.renames[pn]; ok { // renamed parameter (locals.go)
+						pn = to
+					}
 					for _, p := range vc.fn.Params {
-						if p.Name()+"_0" == name {
+						if p.Name() == pn {
 							return vc.vals[p], true
 						}
 					}
